@@ -232,7 +232,7 @@ Definition ex_atoms : list hatom :=
   [mkHA 6 0 0 None 1; mkHA 6 0 0 None 1; mkHA 8 0 0 None 1; mkHA 14 0 0 None 1; mkHA 26 0 0 None 1].
 Definition ex_bonds : list hbond := [mkHB 0 1 1 1; mkHB 1 2 1 1].
 Definition ex_xyz : list vecQ := [(0, 0, 0); (3 # 2, 0, 0); (2, 5 # 4, 0); (5, 5, 5); (9, 9, 9)].
-Definition ex_w (n nz : Q) : wit Q := mkWit Q true n nz (0, 1, 0) (0, 0, 1).
+Definition ex_w (n nz : Q) : wit Q := @mkWit Q true n nz (0, 1, 0) (0, 0, 1).
 Definition ex_ws : list (wit Q) :=
   [ex_w (3 # 2) 1; ex_w (33 # 32) (33 # 32); ex_w (29 # 20) 1; ex_w 1 1].     (* rough witnesses: only counts matter here *)
 Example C16_nonvacuous :
@@ -252,7 +252,7 @@ Proof. vm_compute. repeat split. Qed.
 Local Open Scope R_scope.
 Example C16_geometry_nonvacuous :
   let a : vecR := (0, 0, 0) in let nb : list vecR := [(3 / 2, 0, 0)] in
-  let w := mkWit R true (3 / 2) 1 (0, 1, 0) (0, 0, 1) in
+  let w := @mkWit R true (3 / 2) 1 (0, 1, 0) (0, 0, 1) in
   avg_branch nb /\ 0 < w_n w /\ w_n w * w_n w = norm2 ROps (vsub ROps (centroid ROps nb) a) /\
   unit (w_ov w) /\ dot ROps (w_ov w) (vdiv ROps (vsub ROps (centroid ROps nb) a) (w_n w)) = 0.
 Proof.
